@@ -34,6 +34,10 @@ for f in sorted(glob.glob(os.path.join(V, "checks", "registry.*.json"))):
         if pid.startswith("_"):
             continue
         reg["checks"][pid] = entry
+addenda = json.load(open(os.path.join(V, "checks", "addenda.json")))
+for pid, extra in addenda.items():
+    if pid in reg["checks"] and extra.strip() not in reg["checks"][pid]["text"]:
+        reg["checks"][pid]["text"] = reg["checks"][pid]["text"].rstrip() + extra
 for e in reg["engines"]:
     e["serves_properties"] = sorted(p for p, c in reg["checks"].items() if c["engine"] == e["name"])
 
